@@ -18,6 +18,9 @@ RULE = ('(1) primitives: every string over a 14-letter hostile alphabet up to le
         'conf.registerGlobalValue/registerNetworkValue/registerChannelValue, settings made in generation 0, then k times: load the previous file into registry._cache, '
         'register again, optionally read some values, save -- the saved lines and the values read are compared with the model (loader cache + registration scan) and '
         'between generations (a session that sets nothing must save what it loaded); one history runs on the real supybot.conf tree with one process per session. '
+        '(8) reload in the running bot: histories with set / read / reset (the Config plugin reset commands, re-stated) / save / reload (open_registry without clear) '
+        'inside a session and across restarts, on the real conf.registerChannelValue; saved lines and values read are compared with the timestamp model; directly: a value '
+        'that was reset is not written again unless it is set again or a file that still has it is re-read. '
         '(7) NormalizedString: long values (words with #, hyphens, long URLs, escapes; a #token at every position of a 24-word sentence for three name lengths) '
         'saved by the real close(), the wrapped physical lines / reader result / reloaded value compared with the model and the reload checked directly. '
         'Each case runs on the implementation and on the extracted model and is diffed; the property clauses (reload equality, file loads, rejected set '
@@ -36,7 +39,7 @@ ASSUMPTIONS = ['world.testing/log.testing off; locale encoding UTF-8; integers w
                'private registry.Group trees and a scratch file; registry._cache/_lastModified are restored after every load']
 LEVEL_TEXT = ('Coq theorems over an executable Gallina model of src/registry.py (names, unicode_escape codec, repr/string-literal evaluation, value classes, '
               'value lines of close(), the reader open_registry(), the Value tree with _makeChild/_setValue/getSpecific, the loader cache with the register*Value scans of src/conf.py): name split/join round trip and '
-              'save/reload round trips proved for all inputs on decidable domains with refuting witnesses outside them (finding C15.F23 remains; C15.F16, F22, F24, F25, F26, F27, F28 are repaired); the model is tied to '
+              'save/reload round trips proved for all inputs on decidable domains with refuting witnesses outside them (finding C15.F23 remains; C15.F16, F22, F24, F25, F26, F27, F28, F29 are repaired); the model is tied to '
               'the source by a regenerated class inventory + constant tables and by a differential run against the real registry/conf classes on every check.')
 LEVEL_NOTE = ('Trusted: Coq kernel, table extractor, extraction + OCaml driver, the Python harness; CPython primitives listed in trusted_base; '
               'Python code is modelled not verified.')
@@ -261,6 +264,12 @@ CORPUS_FIXED = [
     {'op': 'norm', 'var': 'someLongName', 'text': 'www wwww wwwww ww wwwwww www www wwww wwwww well-known tail words here'},  # C15.F28: well- known
     {'op': 'norm', 'var': 'aVeryLongVariableNameThatLeavesLittleRoomForTheValue01234567', 'text': 'caf\xe9'},            # C15.F28: cut inside \xe9, file unloadable
     {'op': 'norm', 'var': 'aVeryLongVariableNameThatLeavesLittleRoomForTheValue01234567', 'text': 'ab\\cd'},            # C15.F28: cut inside a doubled backslash
+    {'op': 'tgens', 'vars': [{'ns': ['reply', 'mores', 'maximum'], 'flavor': 'channel', 'cls': 'registry.PositiveInteger'}],   # C15.F29
+     'gens': [[['set', 0, ['g'], '20'], ['set', 0, ['c', '#chan'], '33']],
+              [['reset', 0, ['c', '#chan']], ['save'], ['reload'], ['read', 0, ['c', '#chan']]]]},
+    {'op': 'tgens', 'vars': [{'ns': ['reply', 'inPrivate'], 'flavor': 'channel', 'cls': 'registry.Boolean'}],                # C15.F29
+     'gens': [[['set', 0, ['g'], 'False'], ['set', 0, ['n', 'neta'], 'True'], ['set', 0, ['nc', 'neta', '#chan'], 'True']],
+              [['reset', 0, ['nc', 'neta', '#chan']], ['reset', 0, ['n', 'neta']], ['save'], ['reload'], ['read', 0, ['nc', 'neta', '#chan']], ['read', 0, ['n', 'neta']]]]},
     {'op': 'reload', 'cls': 'registry.Json', 'var': 'v', 'value': [0, '"a"'], 'text': '"a"', 'cur': None},              # C15.F16: Json is not quoted
 ]
 
@@ -722,11 +731,46 @@ def real_generation(inp, g, prev_file, out_file):
                 reg = {'global': conf.registerGlobalValue, 'network': conf.registerNetworkValue, 'channel': conf.registerChannelValue}[v['flavor']]
                 nodes.append(reg(grp, v['ns'][-1], val))
             reads = []
+            saves = []
+            cur_file = prev_file
             for o in inp['gens'][g]:
+                if o[0] == 'save':
+                    r.close(root, out_file)
+                    cur_file = out_file
+                    saves.append(file_lines(out_file))
+                    continue
+                if o[0] == 'reload':
+                    # plugins/Config/plugin.py _reload(): registry.open_registry(world.registryFilename)  -- no clear
+                    if cur_file is None:
+                        cur_file = m.fn + '.gempty'
+                        open(cur_file, 'w').close()
+                    r.open_registry(cur_file)
+                    continue
                 base = nodes[o[1]]
                 a = o[2]
                 q = inp['vars'][o[1]]['cls']
-                if o[0] == 'set':
+                if o[0] == 'reset':
+                    # plugins/Config/plugin.py: reset channel [network] / reset network (shape pinned by t15.config_reset_forgets)
+                    # the harness follows the source: each of the three reset statements forgets the cached text iff the source does
+                    sites = reset_sites()
+                    forget = lambda node, k: r._cache.pop(node._name, None) if sites[k] else None
+                    if a[0] == 'nc':
+                        netgroup = base.get(':' + a[1])
+                        changroup = netgroup.get(a[2])
+                        changroup._setValue(netgroup.value, inherited=True)
+                        forget(changroup, 0)
+                        changroup = base.get(a[2])
+                        changroup._setValue(base.value, inherited=True)
+                        forget(changroup, 1)
+                    elif a[0] == 'c':
+                        changroup = base.get(a[1])
+                        changroup._setValue(base.value, inherited=True)
+                        forget(changroup, 1)
+                    elif a[0] == 'n':
+                        changroup = base.get(':' + a[1])
+                        changroup._setValue(base.value, inherited=True)
+                        forget(changroup, 2)
+                elif o[0] == 'set':
                     n_ = base if a[0] == 'g' else (base.get(a[1]) if a[0] == 'c' else (base.get(':' + a[1]) if a[0] == 'n' else base.get(':' + a[1]).get(a[2])))
                     try:
                         n_.set(o[3])
@@ -737,7 +781,8 @@ def real_generation(inp, g, prev_file, out_file):
                     chan = a[1] if a[0] == 'c' else (a[2] if a[0] == 'nc' else None)
                     reads.append(canon(q, base.getSpecific(network=net, channel=chan)()))
             r.close(root, out_file)
-            return ('ok', file_lines(out_file), reads)
+            saves.append(file_lines(out_file))
+            return ('ok', file_lines(out_file), reads, saves, root)
     except Exception as e:
         return ('raise', exn_name(e))
     finally:
@@ -1057,6 +1102,182 @@ CORPUS_NORM = [('someLongName', 'please join #channel and then #other and then #
 
 
 
+# ---------------------------------------------------------------- (8) reload in a running bot, reset, timestamps
+TOPS = {'set': 0, 'read': 1, 'reset': 2, 'save': 3, 'reload': 4, 'forget': 5}
+
+
+_SITES = []
+
+
+def reset_sites():
+    if not _SITES:
+        _SITES.append(t15.config_reset_sites())
+    return _SITES[0]
+
+
+def tgens_wire(inp):
+    decls = []
+    for v in inp['vars']:
+        q = v['cls']
+        decls.append([[GROOT] + v['ns'], FLAVORS[v['flavor']], wire_kind(q), to_wire_pv(canon(q, default_of(q)))])
+    gens = []
+    for ops in inp['gens']:
+        ws = []
+        for o in ops:
+            if o[0] in ('save', 'reload'):
+                ws.append([TOPS[o[0]], 0, [0]])
+            elif o[0] == 'set':
+                ws.append([0, o[1], addr_wire(o[2]), o[3]])
+            else:
+                ws.append([TOPS[o[0]], o[1], addr_wire(o[2])])
+        gens.append(ws)
+    return [9, [decls, gens]]
+
+
+def addr_name(inp, i, a):
+    """the full registry name of the node at address a of variable i"""
+    m = mods()
+    comps = [GROOT] + inp['vars'][i]['ns'] + ([] if a[0] == 'g' else ([a[1]] if a[0] == 'c' else ([':' + a[1]] if a[0] == 'n' else [':' + a[1], a[2]])))
+    return m.registry.join(comps)
+
+
+def run_tgens(ctx, inp, mo):
+    """generations with save / reload / reset inside a session.  Direct oracle: a specific value that has been
+    reset follows the general value: its line is not written again -- until it is set again, or the file that still
+    has it is re-read (a reload before the reset was saved legitimately brings it back)"""
+    m = mods()
+    fails, outs = [], []
+    prev = None
+    state = {}            # (var, addr) -> 'unsaved' | 'saved'   (reset, and not set since)
+    for g in range(len(inp['gens'])):
+        fn = m.fn + '.g%d' % (g % 2)
+        res = real_generation(inp, g, prev, fn)
+        outs.append(res[:3])
+        if res[0] == 'raise':
+            fails.append('generation %d: the session raised %s' % (g, res[1]))
+            break
+        prev = fn
+        si = 0
+        ops = inp['gens'][g] + [['save']]
+        for o in ops:
+            if o[0] == 'set':
+                state.pop((o[1], tuple(o[2])), None)
+            elif o[0] == 'reset':
+                state[(o[1], tuple(o[2]))] = 'unsaved'
+                if o[2][0] == 'nc':
+                    state[(o[1], ('c', o[2][2]))] = 'unsaved'
+            elif o[0] == 'reload':
+                for k in [k for k, v in state.items() if v == 'unsaved']:
+                    del state[k]
+            elif o[0] == 'save':
+                lines = res[3][si]
+                si += 1
+                names = set(l.split(': ', 1)[0].lower() for l in lines)
+                for (i, a), st in sorted(state.items()):
+                    if addr_name(inp, i, list(a)).lower() in names and not fails:
+                        fails.append('generation %d: %r of variable %d was reset (%s) but its line is written again: %r'
+                                     % (g, a, i, st, [l for l in lines if l.lower().startswith(addr_name(inp, i, list(a)).lower() + ': ')]))
+                for k in state:
+                    state[k] = 'saved'
+    if mo is not None:
+        mm = []
+        for x in mo:
+            rr = wire.r(x, lambda pr: pr)
+            if rr[0] == 'raise':
+                mm.append(('raise', rr[1]))
+            else:
+                mm.append(('ok', sorted('%s: %s' % (wire.s(kv[0]), m.registry.encoder(wire.s(kv[1]))[0].decode()) for kv in rr[1][0]), rr[1][1]))
+        same = len(mm) == len(outs)
+        if same:
+            for g, (a, b) in enumerate(zip(mm, outs)):
+                if a[0] != b[0] or (a[0] == 'ok' and a[1] != b[1]):
+                    same = False
+                elif a[0] == 'ok':
+                    rq = [inp['vars'][o[1]]['cls'] for o in inp['gens'][g] if o[0] == 'read']
+                    if [canon_model(q, v) for q, v in zip(rq, a[2])] != b[2]:
+                        same = False
+        if not same and ('raise', 'OtherError') not in [x[:2] for x in mm]:
+            ctx.disagree(inp, [x[:3] for x in mm], [x[:3] for x in outs], 'generations with reload/reset: saved lines / values read')
+    return fails
+
+
+def check_tgens(ctx, inp, mo):
+    ctx.case('generations-reload-reset', inp)
+    fails = run_tgens(ctx, inp, mo)
+    if fails:
+        ctx.fail(inp, fails[0])
+
+
+TVARS = [(['reply', 'mores', 'maximum'], 'channel', 'registry.PositiveInteger'), (['reply', 'whenAddressedBy', 'chars'], 'channel', 'registry.String'),
+         (['reply', 'inPrivate'], 'channel', 'registry.Boolean'), (['quotes'], 'channel', 'registry.String')]
+
+
+def gtgen(rng, allow_stale=False):
+    picks = rng.sample(TVARS, rng.randint(1, 2))
+    picks.sort(key=lambda v: TVARS.index(v))
+    vars_ = [{'ns': ns, 'flavor': fl, 'cls': q} for ns, fl, q in picks]
+
+    def addr():
+        t = rng.random()
+        return ['c', rng.choice(GCHANS[:2])] if t < 0.5 else (['nc', rng.choice(NETS), rng.choice(GCHANS[:2])] if t < 0.8 else ['n', rng.choice(NETS)])
+    g0, addrs = [], []
+    for i, v in enumerate(vars_):
+        g0.append(['set', i, ['g'], rng.choice(GTEXTS[v['cls']][:2])])
+        for _ in range(rng.randint(1, 3)):
+            a = addr()
+            g0.append(['set', i, a, rng.choice(GTEXTS[v['cls']][:3])])
+            addrs.append((i, a))
+    gens = [g0]
+    for _ in range(rng.randint(1, 2)):
+        ops = []
+        reset_saved = False
+        for _ in range(rng.randint(2, 7)):
+            t = rng.random()
+            i, a = rng.choice(addrs)
+            if t < 0.2:
+                if allow_stale or not reset_saved:
+                    ops.append(['reload'])
+            elif t < 0.45:
+                ops.append(['reset', i, a])
+            elif t < 0.6:
+                ops.append(['save'])
+                reset_saved = reset_saved or any(o[0] == 'reset' for o in ops)
+            elif t < 0.75:
+                ops.append(['set', i, rng.choice([a, ['g']]), rng.choice(GTEXTS[vars_[i]['cls']][:3])])
+            else:
+                ops.append(['read', i, rng.choice([a, ['g']])])
+        if not allow_stale and any(o[0] == 'reset' for o in ops):
+            reset_saved = True
+        gens.append(ops)
+        if reset_saved and not allow_stale:
+            # later generations of this history must not reload (the end-of-generation save stored the reset)
+            for extra in range(rng.randint(0, 1)):
+                gens.append([o for o in [['read', i, a] for i, a in addrs] if rng.random() < 0.5])
+            break
+    inp = {'op': 'tgens', 'vars': vars_, 'gens': gens}
+    return inp
+
+
+CORPUS_TGENS = [
+    # the seeded C15_7 shape: the file has a channel value; reload in the running bot; reset before anything reads it; read; save
+    {'op': 'tgens', 'vars': [{'ns': ['reply', 'mores', 'maximum'], 'flavor': 'channel', 'cls': 'registry.PositiveInteger'}],
+     'gens': [[['set', 0, ['g'], '20'], ['set', 0, ['c', '#chan'], '33']],
+              [['reload'], ['reset', 0, ['c', '#chan']], ['set', 0, ['g'], '7'], ['read', 0, ['c', '#chan']], ['read', 0, ['g']]],
+              [['read', 0, ['c', '#chan']]]]},
+    {'op': 'tgens', 'vars': [{'ns': ['reply', 'inPrivate'], 'flavor': 'channel', 'cls': 'registry.Boolean'}],
+     'gens': [[['set', 0, ['n', 'neta'], 'True'], ['set', 0, ['nc', 'neta', '#chan'], 'True']],
+              [['reload'], ['reset', 0, ['nc', 'neta', '#chan']], ['read', 0, ['nc', 'neta', '#chan']], ['reset', 0, ['n', 'neta']], ['read', 0, ['n', 'neta']]]]},
+    # reload re-reads an edited (here: saved after a set) file: the new value is taken at the next read
+    {'op': 'tgens', 'vars': [{'ns': ['quotes'], 'flavor': 'channel', 'cls': 'registry.String'}],
+     'gens': [[['set', 0, ['c', '#chan'], 'a']], [['set', 0, ['c', '#chan'], 'b'], ['save'], ['reload'], ['read', 0, ['c', '#chan']]]]},
+]
+# C15.F29 witness (known finding): reset, save, reload, read
+WITNESS_F29 = {'op': 'tgens', 'vars': [{'ns': ['reply', 'mores', 'maximum'], 'flavor': 'channel', 'cls': 'registry.PositiveInteger'}],
+               'gens': [[['set', 0, ['g'], '20'], ['set', 0, ['c', '#chan'], '33']],
+                        [['reset', 0, ['c', '#chan']], ['save'], ['reload'], ['read', 0, ['c', '#chan']]]]}
+
+
+
 # ---------------------------------------------------------------- generators
 def gstr(rng, maxlen=8, alpha=None):
     alpha = alpha or (ALPHA + EXTRA)
@@ -1180,6 +1401,10 @@ def _run(ctx):
             do_reload(ctx, inp)
         elif inp['op'] == 'names':
             check_names(ctx, inp['names'], None)
+        elif inp['op'] == 'tgens':
+            fails = run_tgens(ctx, inp, None)
+            if fails:
+                ctx.fail(inp, fails[0])
         elif inp['op'] == 'norm':
             sub = type(ctx)(ctx.pid, ctx.tier, ctx.seed, {'model_ok': False})
             check_norm(sub, inp['var'], inp['text'], None)
@@ -1330,6 +1555,13 @@ def _run(ctx):
     for g, mo in zip(gl, outs):
         check_gens(ctx, g, mo)
     check_real_gens(ctx, {'op': 'real_gens', 'cases': REAL_CASES, 'sessions': 3})
+    # (8) reload in the running bot, reset, timestamps
+    tl = list(CORPUS_TGENS) + [WITNESS_F29]
+    for i in range(ctx.n(120)):
+        tl.append(gtgen(rng, allow_stale=(i % 2 == 0)))
+    outs = ctx.model([tgens_wire(g) for g in tl])
+    for g, mo in zip(tl, outs):
+        check_tgens(ctx, g, mo)
     # (7) NormalizedString: long values wrapped over several physical lines, '#word' at every position
     nl = list(CORPUS_NORM)
     base = 'alpha beta gamma delta epsilon zeta eta theta iota kappa lambda mu nu xi omicron pi rho sigma tau upsilon phi chi psi omega'.split()
@@ -1360,6 +1592,8 @@ def replay(ctx, inp):
         do_reload(sub, inp)
     elif op == 'tree':
         check_tree(sub, inp, None)
+    elif op == 'tgens':
+        check_tgens(sub, inp, None)
     elif op == 'norm':
         check_norm(sub, inp['var'], inp['text'], None)
     elif op == 'gens':
@@ -1370,6 +1604,14 @@ def replay(ctx, inp):
 
 
 def shrink(ctx, inp):
+    if inp.get('op') == 'tgens':
+        cur = inp
+        for g in range(len(cur['gens']) - 1, 0, -1):
+            ops = shrink_seq(cur['gens'][g], lambda o, g=g: replay(ctx, dict(cur, gens=cur['gens'][:g] + [o] + cur['gens'][g + 1:])) is not None, budget=40)
+            cand = dict(cur, gens=cur['gens'][:g] + [ops] + cur['gens'][g + 1:])
+            if replay(ctx, cand) is not None:
+                cur = cand
+        return cur
     if inp.get('op') == 'norm':
         words = shrink_seq(inp['text'].split(' '), lambda w: replay(ctx, dict(inp, text=' '.join(w))) is not None, budget=80)
         return dict(inp, text=' '.join(words))
